@@ -389,6 +389,7 @@ def run(ctx):
     if ctx.quick:
         uni = [r for r in uni if len(r[2]) <= 1] + [r for r in uni if len(r[2]) == 2][::3]
         fam = fam[::20]
+        ctx.cap_hit("export circuits of depth 2 every 3rd, directed family every 20th (depth <= 1, tomography family and witnesses complete)")
     # smallest witnesses of the recorded to_tk defect families (always explored)
     E = lambda x: ("e", x)  # noqa
     noisy = "ClassicalGate('noisy', 1, 1, [0.9, 0.1, 0.2, 0.8])"
